@@ -44,7 +44,7 @@ g_zeroize!(tdes_eee2_zeroize, TdesEee2, generic::always, generic::none);
 fn conc_f(r: u64, k: u64) -> u64 {
     (refmodels::des::f((r >> 32) as u32, k >> 16) as u64) << 32
 }
-uf2!(xf, u64, u64, u64, [B0 B1 B2], conc_f);
+cuf2!(xf, vuf_dx_xf, u64, u64, u64, conc_f);
 pub fn stub_xf(input: u64, key: u64) -> u64 {
     xf::call(input & 0xFFFF_FFFF_0000_0000, key) & 0xFFFF_FFFF_0000_0000
 }
@@ -108,24 +108,36 @@ pub fn stub_kd_dec(d: &Des, x: u64) -> u64 {
     return kd_native(d, x, true);
 }
 
+/// state validity for the Des / TDES harnesses: every subkey word has its 16 low (ignored) bits zero, as in every state a
+/// constructor produces
+pub fn canon(b: &[u8]) -> bool {
+    let mut ok = true;
+    let mut w = 0;
+    while 8 * w + 1 < b.len() {
+        ok &= (b[8 * w] | b[8 * w + 1]) == 0;
+        w += 1;
+    }
+    ok
+}
+
 //@ harness name=des_frame prop=C15,C20 tier=quick bits=1088 est=130 desc="encrypt_block/decrypt_block on an arbitrary Des state and block return (no panic/overflow) and leave the instance bytes unchanged; nothing abstracted"
-g_frame!(des_frame, Des, 8, generic::always);
+g_frame!(des_frame, Des, 8, canon);
 //@ harness name=tdes_ede3_frame prop=C15,C20 tier=quick bits=3136 stub=1 desc="encrypt/decrypt on an arbitrary TdesEde3 state: total, instance unchanged (single DES uninterpreted, keyed by the subkey array)"
-g_frame!(tdes_ede3_frame, TdesEde3, 8, generic::always, stubs: [(crate::des::Des::encrypt, stub_kd_enc), (crate::des::Des::decrypt, stub_kd_dec)]);
+g_frame!(tdes_ede3_frame, TdesEde3, 8, canon, stubs: [(crate::des::Des::encrypt, stub_kd_enc), (crate::des::Des::decrypt, stub_kd_dec)]);
 //@ harness name=tdes_ede2_frame prop=C15,C20 tier=quick bits=2112 stub=1 desc="encrypt/decrypt on an arbitrary TdesEde2 state: total, instance unchanged (single DES uninterpreted, keyed by the subkey array)"
-g_frame!(tdes_ede2_frame, TdesEde2, 8, generic::always, stubs: [(crate::des::Des::encrypt, stub_kd_enc), (crate::des::Des::decrypt, stub_kd_dec)]);
+g_frame!(tdes_ede2_frame, TdesEde2, 8, canon, stubs: [(crate::des::Des::encrypt, stub_kd_enc), (crate::des::Des::decrypt, stub_kd_dec)]);
 //@ harness name=tdes_eee3_frame prop=C15,C20 tier=quick bits=3136 stub=1 desc="encrypt/decrypt on an arbitrary TdesEee3 state: total, instance unchanged (single DES uninterpreted, keyed by the subkey array)"
-g_frame!(tdes_eee3_frame, TdesEee3, 8, generic::always, stubs: [(crate::des::Des::encrypt, stub_kd_enc), (crate::des::Des::decrypt, stub_kd_dec)]);
+g_frame!(tdes_eee3_frame, TdesEee3, 8, canon, stubs: [(crate::des::Des::encrypt, stub_kd_enc), (crate::des::Des::decrypt, stub_kd_dec)]);
 //@ harness name=tdes_eee2_frame prop=C15,C20 tier=quick bits=2112 stub=1 desc="encrypt/decrypt on an arbitrary TdesEee2 state: total, instance unchanged (single DES uninterpreted, keyed by the subkey array)"
-g_frame!(tdes_eee2_frame, TdesEee2, 8, generic::always, stubs: [(crate::des::Des::encrypt, stub_kd_enc), (crate::des::Des::decrypt, stub_kd_dec)]);
+g_frame!(tdes_eee2_frame, TdesEee2, 8, canon, stubs: [(crate::des::Des::encrypt, stub_kd_enc), (crate::des::Des::decrypt, stub_kd_dec)]);
 
 // C15: mixed-direction history on one instance and construction history (see generic.rs)
-//@ harness name=des_mixed prop=C15,C20 tier=quick bits=1152 est=300 desc="Des: on one arbitrary-state instance the history enc(x); dec(x); dec(y); enc(y) returns for dec(x) and enc(y) what a pristine instance with the same state returns; instance bytes unchanged; nothing abstracted"
-g_mixed!(des_mixed, Des, 8, generic::always);
+//@ harness name=des_mixed prop=C15 tier=quick bits=1152 stub=1 est=100 desc="Des: on one arbitrary-state instance the history enc(x); dec(x); dec(y); enc(y) returns for dec(x) and enc(y) what a pristine instance with the same state returns; instance bytes unchanged (cipher function f uninterpreted; IP/FP/rounds real; totality with nothing abstracted is des_frame)"
+g_mixed!(des_mixed, Des, 8, canon, stubs: [(crate::utils::f, stub_xf)]);
 //@ harness name=tdes_ede3_mixed prop=C15,C20 tier=quick bits=3200 stub=1 desc="TdesEde3: mixed-direction history enc(x); dec(x); dec(y); enc(y) agrees with a pristine instance; instance bytes unchanged (f uninterpreted)"
-g_mixed!(tdes_ede3_mixed, TdesEde3, 8, generic::always, stubs: [(crate::des::Des::encrypt, stub_kd_enc), (crate::des::Des::decrypt, stub_kd_dec)]);
+g_mixed!(tdes_ede3_mixed, TdesEde3, 8, canon, stubs: [(crate::des::Des::encrypt, stub_kd_enc), (crate::des::Des::decrypt, stub_kd_dec)]);
 //@ harness name=tdes_eee2_mixed prop=C15,C20 tier=quick bits=2176 stub=1 desc="TdesEee2: mixed-direction history agrees with a pristine instance; instance bytes unchanged (f uninterpreted)"
-g_mixed!(tdes_eee2_mixed, TdesEee2, 8, generic::always, stubs: [(crate::des::Des::encrypt, stub_kd_enc), (crate::des::Des::decrypt, stub_kd_dec)]);
+g_mixed!(tdes_eee2_mixed, TdesEee2, 8, canon, stubs: [(crate::des::Des::encrypt, stub_kd_enc), (crate::des::Des::decrypt, stub_kd_dec)]);
 //@ harness name=des_ctor_history prop=C15 tier=quick bits=192 est=300 desc="Des: history new(k2) in a fresh process, new(k1), new(k2), new(k3), new(k1): both constructions from k2 give the same subkeys and both from k1 do, all keys k1, k2, k3"
 g_ctor_history!(des_ctor_history, Des, 8, generic::none);
 //@ harness name=tdes_ede3_ctor_history prop=C15 tier=thorough bits=576 est=1500 mem=24 desc="TdesEde3: construction history new(k2); new(k1); new(k2); new(k3); new(k1) gives the same state for equal keys, all keys"
@@ -133,22 +145,22 @@ g_ctor_history!(tdes_ede3_ctor_history, TdesEde3, 24, generic::none);
 
 // C04: every block count n = 0, 1, 2 (enumerated), all block contents and all states symbolic; one harness per direction.
 //@ harness name=des_blocks_enc prop=C04,C20 tier=quick bits=1152 stub=1 desc="Des encrypt: multi-block in place / multi-block b2b (n = 0,1,2) / single b2b equal per-block in-place calls; separate input unchanged; blocks >= n and mismatched-length outputs untouched; arbitrary state (f uninterpreted)"
-g_blocks1!(des_blocks_enc, Des, 8, 2, generic::always, enc, stubs: [(crate::utils::f, stub_xf)]);
+g_blocks1!(des_blocks_enc, Des, 8, 2, canon, enc, stubs: [(crate::utils::f, stub_xf)]);
 //@ harness name=des_blocks_dec prop=C04,C20 tier=quick bits=1152 stub=1 desc="Des decrypt: same as des_blocks_enc"
-g_blocks1!(des_blocks_dec, Des, 8, 2, generic::always, dec, stubs: [(crate::utils::f, stub_xf)]);
+g_blocks1!(des_blocks_dec, Des, 8, 2, canon, dec, stubs: [(crate::utils::f, stub_xf)]);
 //@ harness name=tdes_ede3_blocks_enc prop=C04,C20 tier=quick bits=3200 stub=1 desc="TdesEde3 encrypt: multi-block / b2b calls equal per-block calls (n = 0,1,2); arbitrary state (f uninterpreted)"
-g_blocks1!(tdes_ede3_blocks_enc, TdesEde3, 8, 2, generic::always, enc, stubs: [(crate::des::Des::encrypt, stub_kd_enc), (crate::des::Des::decrypt, stub_kd_dec)]);
+g_blocks1!(tdes_ede3_blocks_enc, TdesEde3, 8, 2, canon, enc, stubs: [(crate::des::Des::encrypt, stub_kd_enc), (crate::des::Des::decrypt, stub_kd_dec)]);
 //@ harness name=tdes_ede3_blocks_dec prop=C04,C20 tier=quick bits=3200 stub=1 desc="TdesEde3 decrypt: multi-block / b2b calls equal per-block calls (n = 0,1,2); arbitrary state (f uninterpreted)"
-g_blocks1!(tdes_ede3_blocks_dec, TdesEde3, 8, 2, generic::always, dec, stubs: [(crate::des::Des::encrypt, stub_kd_enc), (crate::des::Des::decrypt, stub_kd_dec)]);
+g_blocks1!(tdes_ede3_blocks_dec, TdesEde3, 8, 2, canon, dec, stubs: [(crate::des::Des::encrypt, stub_kd_enc), (crate::des::Des::decrypt, stub_kd_dec)]);
 //@ harness name=tdes_ede2_blocks_enc prop=C04,C20 tier=quick bits=2176 stub=1 desc="TdesEde2 encrypt: multi-block / b2b calls equal per-block calls; arbitrary state (f uninterpreted)"
-g_blocks1!(tdes_ede2_blocks_enc, TdesEde2, 8, 2, generic::always, enc, stubs: [(crate::des::Des::encrypt, stub_kd_enc), (crate::des::Des::decrypt, stub_kd_dec)]);
+g_blocks1!(tdes_ede2_blocks_enc, TdesEde2, 8, 2, canon, enc, stubs: [(crate::des::Des::encrypt, stub_kd_enc), (crate::des::Des::decrypt, stub_kd_dec)]);
 //@ harness name=tdes_ede2_blocks_dec prop=C04,C20 tier=quick bits=2176 stub=1 desc="TdesEde2 decrypt: multi-block / b2b calls equal per-block calls; arbitrary state (f uninterpreted)"
-g_blocks1!(tdes_ede2_blocks_dec, TdesEde2, 8, 2, generic::always, dec, stubs: [(crate::des::Des::encrypt, stub_kd_enc), (crate::des::Des::decrypt, stub_kd_dec)]);
+g_blocks1!(tdes_ede2_blocks_dec, TdesEde2, 8, 2, canon, dec, stubs: [(crate::des::Des::encrypt, stub_kd_enc), (crate::des::Des::decrypt, stub_kd_dec)]);
 //@ harness name=tdes_eee3_blocks_enc prop=C04,C20 tier=quick bits=3200 stub=1 desc="TdesEee3 encrypt: multi-block / b2b calls equal per-block calls; arbitrary state (f uninterpreted)"
-g_blocks1!(tdes_eee3_blocks_enc, TdesEee3, 8, 2, generic::always, enc, stubs: [(crate::des::Des::encrypt, stub_kd_enc), (crate::des::Des::decrypt, stub_kd_dec)]);
+g_blocks1!(tdes_eee3_blocks_enc, TdesEee3, 8, 2, canon, enc, stubs: [(crate::des::Des::encrypt, stub_kd_enc), (crate::des::Des::decrypt, stub_kd_dec)]);
 //@ harness name=tdes_eee3_blocks_dec prop=C04,C20 tier=quick bits=3200 stub=1 desc="TdesEee3 decrypt: multi-block / b2b calls equal per-block calls; arbitrary state (f uninterpreted)"
-g_blocks1!(tdes_eee3_blocks_dec, TdesEee3, 8, 2, generic::always, dec, stubs: [(crate::des::Des::encrypt, stub_kd_enc), (crate::des::Des::decrypt, stub_kd_dec)]);
+g_blocks1!(tdes_eee3_blocks_dec, TdesEee3, 8, 2, canon, dec, stubs: [(crate::des::Des::encrypt, stub_kd_enc), (crate::des::Des::decrypt, stub_kd_dec)]);
 //@ harness name=tdes_eee2_blocks_enc prop=C04,C20 tier=quick bits=2176 stub=1 desc="TdesEee2 encrypt: multi-block / b2b calls equal per-block calls; arbitrary state (f uninterpreted)"
-g_blocks1!(tdes_eee2_blocks_enc, TdesEee2, 8, 2, generic::always, enc, stubs: [(crate::des::Des::encrypt, stub_kd_enc), (crate::des::Des::decrypt, stub_kd_dec)]);
+g_blocks1!(tdes_eee2_blocks_enc, TdesEee2, 8, 2, canon, enc, stubs: [(crate::des::Des::encrypt, stub_kd_enc), (crate::des::Des::decrypt, stub_kd_dec)]);
 //@ harness name=tdes_eee2_blocks_dec prop=C04,C20 tier=quick bits=2176 stub=1 desc="TdesEee2 decrypt: multi-block / b2b calls equal per-block calls; arbitrary state (f uninterpreted)"
-g_blocks1!(tdes_eee2_blocks_dec, TdesEee2, 8, 2, generic::always, dec, stubs: [(crate::des::Des::encrypt, stub_kd_enc), (crate::des::Des::decrypt, stub_kd_dec)]);
+g_blocks1!(tdes_eee2_blocks_dec, TdesEee2, 8, 2, canon, dec, stubs: [(crate::des::Des::encrypt, stub_kd_enc), (crate::des::Des::decrypt, stub_kd_dec)]);
